@@ -19,7 +19,9 @@ RULE = ("bond graphs without self-loops and without 3-membered rings in which ev
         "UFF formula oracle of the C18 harness. Dihedral typing additionally on chains that mix centres WITHOUT a defined "
         "torsion (sp X_1, metals) with ordinary sp3/sp2 centres, the term list ordered dropped-first / kept-first / "
         "alternating / shuffled and in EVERY permutation when there are <= 4 dihedrals; the renamed second run is itself "
-        "checked by the typing oracle. "
+        "checked by the typing oracle. Outside the property's domain, tie only: bond lists with self-bonds (model = "
+        "networkx behaviour, theorems angles_exact / dihedrals_exact evaluated on the real output). Retype additionally "
+        "on type lists with several types per element, in two atom orders. "
         "Thorough: additionally EVERY triangle-free graph on <= 6 labelled vertices with all degrees >= 1. "
         "Non-trivial = distinct input whose graph has a branch (degree >= 3) or a ring.")
 
@@ -1028,6 +1030,111 @@ def torsionless_cases(ctx, bt, count):
                          rng=rng if k < 4 else None)
 
 
+def general_exact(kind, bonds, got):
+    """the statement of the theorems angles_exact / dihedrals_exact for ARBITRARY bond lists (self-bonds included),
+    evaluated on the real enumeration: a self-bond (v,v) makes v its own neighbour; a chain through a self-bond is
+    listed from both ends.  Returns None or a text.  (Self-bonds are outside the property's domain: a deviation here is
+    reported as a broken tie, not as a property violation.)"""
+    es = set(frozenset(b) for b in bonds)
+    vs = sorted(set(v for b in bonds for v in b))
+    bonded = lambda a, b: frozenset((a, b)) in es
+    terms = [tuple(t) for t in got["terms"]]
+    want = {}
+    if kind == "angles":
+        for v in vs:
+            for a in vs:
+                for b in vs:
+                    if a != b and bonded(v, a) and bonded(v, b):
+                        want[canon((a, v, b))] = 1
+    else:
+        for j in vs:
+            for k in vs:
+                if not bonded(j, k):
+                    continue
+                for i in vs:
+                    for l in vs:
+                        if bonded(i, j) and bonded(k, l) and i != k and j != l:
+                            want[canon((i, j, k, l))] = 2 if j == k else 1
+    have = {}
+    for t in terms:
+        have[canon(t)] = have.get(canon(t), 0) + (2 if t == t[::-1] else 1)
+    if len(set(terms)) != len(terms):
+        return "%s: a term is listed twice" % kind
+    if have != want:
+        d = sorted(set(have.items()) ^ set(want.items()))
+        return "%s: occurrences up to reversal differ from the general exactness statement: %s" % (kind, d[:3])
+    return None
+
+
+def multigraph_cases(ctx, bt, count):
+    """bond lists with self-bonds (an atom bonded to itself), on top of duplicates and both directions: outside the
+    property's domain; the model follows networkx there (theorems angles_exact / dihedrals_exact) and is compared
+    exactly; nothing is demanded by the property oracle"""
+    rng = ctx.rng
+    for _ in range(count):
+        edges, _k = rand_graph(rng, rng.choice([4, 6, 9]))
+        bonds = listing(rng, edges)
+        vs = sorted(set(v for e in edges for v in e))
+        for _ in range(rng.randint(1, 2)):
+            v = rng.choice(vs)
+            for _ in range(rng.randint(1, 2)):
+                bonds.insert(rng.randint(0, len(bonds)), [v, v])
+        for kind in ("angles", "dihedrals"):
+            inp = {"op": kind, "bonds": bonds}
+            r = real_enum(kind, bonds)
+            ctx.case(inp, nontrivial=True)
+            ctx.count("self-bond:" + kind)
+            bad = general_exact(kind, bonds, r)
+            if bad:
+                ctx.disagree(kind, inp, r, None, "real enumeration vs theorem statement: " + bad)
+            bt.tie(inp, r)
+        bt.tie({"op": "adjacency", "bonds": bonds}, real_adjacency(bonds))
+        # typing of the degenerate terms (repeated atoms): tie only.  An exclusion set made of the atoms of one such
+        # term has FEWER members than the arity, so the `len(exclude) >= arity` guard of the code decides.
+        n = nverts([tuple(b) for b in bonds])
+        uff, _m = rand_uff(rng, edges, n, mode=rng.choice(["plausible", "mixed-bo", "friendly"]))
+        seen, bond_terms = set(), []
+        for b in bonds:
+            if frozenset(b) not in seen:
+                seen.add(frozenset(b))
+                bond_terms.append(list(b))
+        lists = {"bond": bond_terms, "angle": real_enum("angles", bonds)["terms"],
+                 "dihedral": real_enum("dihedrals", bonds)["terms"]}
+        for k in ("bond", "angle", "dihedral"):
+            terms = lists[k]
+            if not terms:
+                continue
+            degenerate = [t for t in terms if len(set(t)) < len(t)]
+            ex = sorted(set(rng.choice(degenerate or terms))) if rng.random() < 0.7 else None
+            inp = {"op": "assign", "kind": k, "terms": terms, "uff": uff, "exclude": ex, "params": param_table(k, terms, uff)}
+            ctx.case(inp, nontrivial=True)
+            ctx.count("self-bond:assign:" + k)
+            if ex is not None and len(ex) < ARITY[k]:
+                ctx.count("self-bond:exclusion-set-smaller-than-arity")
+            bt.tie(inp, real_assign(k, terms, uff, ex))
+
+
+def retype_cases(ctx, bt, count):
+    """type lists in which several types share an element (the secondary, string order of the label table matters) and
+    the same set of types in another atom order"""
+    rng = ctx.rng
+    keys = massed_keys()
+    by_el = {}
+    for k in keys:
+        by_el.setdefault(k[0:2].replace("_", ""), []).append(k)
+    rich = [e for e, v in by_el.items() if len(v) >= 3]
+    for _ in range(count):
+        pool = []
+        for e in rng.sample(rich, rng.randint(1, 4)):
+            pool += rng.sample(by_el[e], rng.randint(2, min(5, len(by_el[e]))))
+        pool += rng.sample(keys, rng.randint(0, 3))
+        types = [rng.choice(pool) for _ in range(rng.randint(len(pool), 2 * len(pool)))]
+        check_retype(ctx, bt, types)
+        shuffled = list(types)
+        rng.shuffle(shuffled)
+        check_retype(ctx, bt, shuffled)
+
+
 def typekey_cases(ctx, bt, count):
     rng = ctx.rng
     keys = table_keys()
@@ -1067,6 +1174,8 @@ def run(ctx, oracle_only=False):
         graph_case(ctx, bt, edges, "aromatic", given_uff=types)
     # chains mixing torsion-less centres (sp, metals) with ordinary ones; dropped types listed before kept ones
     torsionless_cases(ctx, bt, ctx.n(60, 600))
+    multigraph_cases(ctx, bt, ctx.n(60, 600))
+    retype_cases(ctx, bt, ctx.n(40, 400))
     typekey_cases(ctx, bt, ctx.n(300, 3000))
     state_check(ctx)
     # types outside retype's domain (element not in the mass table): compared with the model only
